@@ -9,12 +9,14 @@
 #define LL2C_EXCEPTION_PATH() __CPROVER_assume(0)
 #define LL2C_ASSUME(c) __CPROVER_assume(c)
 #define LL2C_SHCHK(b, n) __CPROVER_assert((b) < (n), "ll2c: shift amount >= width (UB)")
+#define LL2C_ASSUME_OR_ASSERT(c) __CPROVER_assert(c, "ll2c: typed copy length is a multiple of the element size")
 #else
 #include <stdlib.h>
 #define LL2C_UNREACHABLE() abort()
 #define LL2C_EXCEPTION_PATH() abort()
 #define LL2C_ASSUME(c) ((void)0)
 #define LL2C_SHCHK(b, n) ((void)0)
+#define LL2C_ASSUME_OR_ASSERT(c) ((void)0)
 #endif
 static inline uint32_t ll2c_shl32(uint32_t a, uint32_t b, int n) { LL2C_SHCHK(b, (uint32_t)n); return a << (b & 31); }
 static inline uint64_t ll2c_shl64(uint64_t a, uint64_t b, int n) { LL2C_SHCHK(b, (uint64_t)n); return a << (b & 63); }
